@@ -50,6 +50,9 @@ type Profile struct {
 	// HostileFields: attribute names only from the hostile pool (keywords, predeclared
 	// identifiers, Goify collisions, names the generated code uses itself)
 	HostileFields bool
+	// AliasDefaults: primitive alias types may declare a Default on the type
+	// itself; attributes of that type inherit it
+	AliasDefaults bool
 	Meta         bool
 	AllVerbs     bool
 	PrimPayloads bool // primitive / array / map payloads and results
@@ -127,7 +130,7 @@ func Security() Profile {
 func Response() Profile {
 	return Profile{Name: "response", MaxServices: 2, MaxMethods: 3, MaxFields: 6, Runtime: true,
 		Validations: true, Defaults: true, UserTypes: true, Aliases: true, Recursive: true, Tags: true, RespHeaders: true, Cookies: true,
-		ExplicitBody: true, Maps: true, Bytes: true, PrimPayloads: true, ResultTypes: true, RespHeavy: true}
+		ExplicitBody: true, Maps: true, Bytes: true, PrimPayloads: true, ResultTypes: true, RespHeavy: true, AliasDefaults: true}
 }
 
 // G carries the state of one design generation.
@@ -324,6 +327,12 @@ func (g *G) userType() {
 		if g.p.Validations {
 			a.V = g.validation(a, 2)
 		}
+		if g.p.AliasDefaults && g.p.Defaults && k != m.UInt32 && rapid.IntRange(0, 2).Draw(t, "aliasdefault") == 0 {
+			g.setDefault(a)
+			if a.Default != nil {
+				g.feat("alias-type-default")
+			}
+		}
 		ut := &m.UserType{Name: g.newTypeName(), Attr: a, Var: g.newVar()}
 		g.d.Types = append(g.d.Types, ut)
 		g.feat("alias")
@@ -451,6 +460,13 @@ func (g *G) attr(depth int, self string) *m.Attr {
 	}
 	if g.p.Defaults && rapid.IntRange(0, 4).Draw(t, "hasdefault") == 0 {
 		g.setDefault(a)
+	}
+	if a.Type.Kind == m.User && a.Default == nil {
+		if ut := g.d.TypeByName(a.Type.User); ut != nil && ut.Attr != nil && ut.Attr.Type.Kind != m.Object && ut.Attr.Type.Kind != m.User && ut.Attr.Default != nil {
+			dv := *ut.Attr.Default
+			a.Default, a.DefaultFromAlias = &dv, true
+			g.feat("default-inherited-from-alias")
+		}
 	}
 	if rapid.IntRange(0, 5).Draw(t, "hasdesc") == 0 {
 		a.Desc = rapid.SampledFrom([]string{"A description", "It's \"quoted\"", "multi\nline", "with `backtick`", "100% */ /* done"}).Draw(t, "desc")
